@@ -697,6 +697,38 @@ func c03Passes(c *Ctx, fi *FuncInfo, ps []*Path, which func(*FuncInfo, *Term) st
 	if !isFreshSet(result) {
 		return nil, result, "the result is not built in this call: " + result.String()
 	}
+	// every way out performs the same passes: a returning path that enumerates, adds or delegates differently from the
+	// main one (a fast path around a pass) is a different operation for the inputs that take it
+	sig := func(p *Path) string {
+		var parts []string
+		for i := range p.Events {
+			e := &p.Events[i]
+			if e.Kind == "range" {
+				parts = append(parts, "range "+e.Addr.Key())
+			}
+			if e.Kind != "call" {
+				continue
+			}
+			for _, suf := range []string{".Range", ".AddSet", ".RemoveSet", ".Add", ".Remove", ".Clone", ".SetDiff", ".Union", ".Intersect", ".SymDiff"} {
+				if strings.HasSuffix(e.Name, suf) && len(e.Args) > 0 {
+					a := e.Name
+					for _, x := range e.Args {
+						if x != nil && (which(fi, x) != "" || stripIface(x).Key() == result.Key()) {
+							a += " " + stripIface(x).Key()
+						}
+					}
+					parts = append(parts, a)
+				}
+			}
+		}
+		return strings.Join(parts, ";")
+	}
+	mainSig := sig(main)
+	for _, p := range ps {
+		if p.End == EndReturn && p != main && sig(p) != mainSig {
+			return nil, result, fmt.Sprintf("a returning path (%s) does not perform the passes of the main path: it is a different operation for the inputs that take it", p.CondString())
+		}
+	}
 	// base passes from delegation
 	if result.Op == "call" {
 		switch {
